@@ -104,7 +104,8 @@ def resolve_method(self, owner, name, kind, hint=None):
                 ok = bool(arg) and arg.split('<')[0].strip() == hint[1]
             elif isinstance(hint, tuple) and hint[0] == 'list':
                 ok = bool(arg) and arg.startswith('Vec')
-            elif hint in ('real', 'nat', 'int', 'bool') and arg and not kinds and kind_class(arg) is None and arg.split(',')[0].strip() not in ('X', 'T'):
+            elif hint in ('real', 'nat', 'int', 'bool') and arg and not kinds and kind_class(arg) is None and arg.split(',')[0].strip() not in ('X', 'T') \
+                    and kind_class(arg.split(',')[0].strip()) != hint:
                 ok = False
             if not ok:
                 continue
